@@ -43,6 +43,18 @@ Proof.
 Qed.
 Print Assumptions C05_create_installs_first.
 
+(* the compiled set is installed whole or not at all: when one offered program does not compile, or its
+   install message cannot be encoded, the run ends with an error before the receive loop; the only
+   effect is the close of the transport, so no datapath is sent a partial set and no handle exists
+   that could select a program that was never installed *)
+From Portus Require Import StartFacts.
+Theorem C05_partial_program_set_never_runs : forall cfg user send_ok bufsize stopped0 evs,
+  cfg_compile_ok cfg = false ->
+  run_model cfg user send_ok bufsize stopped0 evs = ([ECloseTransport], RErr) /\
+  forall e, In e (fst (run_model cfg user send_ok bufsize stopped0 evs)) -> e = ECloseTransport.
+Proof. exact partial_program_set_never_runs. Qed.
+Print Assumptions C05_partial_program_set_never_runs.
+
 (* translator obligations (lib/gen_statespace.py reads the structs, statics and mutable bindings of the
    modelled code on every run): the code has the state the model represents and no other *)
 From Portus Require Import StateTie.
